@@ -221,7 +221,8 @@ impl Scenario for C06 {
                 0..=5 => tail.push(Act::Flush { w: rng.below(nw as u64) as u8, form: rng.below(2) as u8, to }),
                 6..=9 => tail.push(Act::Deliver { pick: if rng.chance(1, 2) { 0 } else { rng.next_u32() }, keep: rng.chance(1, 3) }),
                 10 => tail.push(Act::Drop { pick: rng.next_u32() }),
-                11 => {
+                // (not in a deep-fill run: later bursts could carry the nearly full matrix past C = 59.375 K)
+                11 if !deep => {
                     let w = rng.below(nw as u64) as u8;
                     for rc in gen_row_cols(rng, workers[w as usize], 40, true) {
                         tail.push(Act::WUpdate { w, rc });
